@@ -212,17 +212,27 @@ def populate(rng, h, db, E, H):
         hs = []
         for _ in range(rng.choice([2, 3, 4])):
             kw = {}
-            free = [o for o in tree0 if o.h_ref is None and not any(hh[1].get('ref0') is o for hh in hs)]
+            free = [o for o in tree0 if not any(hh[0].get('ref0') is o for hh in hs)]
             if free and rng.random() < 0.85: kw['ref0'] = rng.choice(free)
             kw['refs0'] = [o for o in tree0 if rng.random() < 0.6]
             if rng.random() < 0.85: kw['mref'] = rng.choice(tree0)
             mine = [o for o in tree0 if o not in owned and rng.random() < 0.5]
             owned.update(mine); kw['many'] = mine
             if h.get('subk') is not None:
-                cand = [o for o, i in objs if is_sub(h, i, h['subk']) and not any(hh[1].get('sub') is o for hh in hs)]
+                cand = [o for o, i in objs if is_sub(h, i, h['subk']) and not any(hh[0].get('sub') is o for hh in hs)]
                 if cand and rng.random() < 0.8: kw['sub'] = rng.choice(cand)
-            hs.append((H(**kw), kw))
+            hs.append((kw,))
+        flush()                                   # objects first, then the holders, then the links that point back (no cyclic save chains)
+        made = []
+        for (kw,) in hs:
+            first = {k: v for k, v in kw.items() if k in ('mref', 'refs0', 'sub')}
+            made.append((H(**first), kw))
         flush()
+        for hh, kw in made:
+            if kw.get('ref0') is not None: hh.ref0 = kw['ref0']
+            if kw.get('many'): hh.many = kw['many']
+        flush()
+        hs = made
         for o, i in objs: w.cls[(h['root'][i], o.id)] = i; w.a[(h['root'][i], o.id)] = o.a
         for hh, kw in hs:
             w.holders[hh.id] = {'ref0': kw['ref0'].id if kw.get('ref0') is not None else None, 'refs0': sorted(o.id for o in kw['refs0']),
@@ -266,7 +276,6 @@ class Checker:
         """one access path; an exception of the real code on a path where the object exists is a failure of the property, not of the harness"""
         try:
             return self._step(rng, kind)
-        except AssertionError: raise
         except Exception as e:
             self.fail(kind, 'reaching a stored object through %s raised %s' % (kind, type(e).__name__), str(e)[:200], 'raised ' + type(e).__name__, 'the stored object(s)')
             self.broken = True
@@ -378,7 +387,13 @@ def one_world(ctx, h, reqs, checks):
     db, E, H = build(h)
     try:
         code = hier_tie(ctx, h, E, reqs, checks)
-        w = populate(rng, h, db, E, H)
+        try:
+            w = populate(rng, h, db, E, H)
+        except Exception as e:
+            ctx.count('oracle-fail:populate-raised')
+            ctx.violation('creating and saving objects of the hierarchy raised %s' % type(e).__name__,
+                          {'bases': h['bases'], 'mode': h['mode'], 'subk': h.get('subk'), 'error': str(e)[:200]}, observed='raised ' + type(e).__name__, expected='objects stored')
+            return
         code_l, cmap = codes(E)
         for s in range(ctx.scale(5, 8)):
             ck = Checker(ctx, h, db, E, H, w)
